@@ -49,6 +49,7 @@ def run(ck: Check):
     if os.environ.get("C17_ONLY_BW"):
         worlds = []
     worlds += cc.bandwidth_worlds(ck, 2 if not thorough else 8, 950)
+    worlds += cc.tradeoff_worlds(ck, 4 if not thorough else 12, 970)
     obs = cc.observe(ck, [(("single", w["id"]), w, None) for w in worlds])
     fr_runs = mc.run_mapper(ck, [(w, ("ENERGY", "LATENCY"), None, True) for w in worlds])
     edp_runs = mc.run_mapper(ck, [(w, ("ENERGY_DELAY_PRODUCT",), None, True) for w in worlds])
